@@ -103,7 +103,7 @@ def main():
             ri, rm = parse_kresult(li), parse_kresult(lm)
             m = cs['model']
             wet = sum(cs['rain']) > 0
-            c.count((tag, i, m, cs['regime'], len(cs['rain'])), nontrivial=wet and len(cs['rain']) > 0)
+            c.count((m, cs['ps'], cs['st0'], cs['rain'], cs['pet']), nontrivial=wet and len(cs['rain']) > 0)
             nmodel[m] = nmodel.get(m, 0) + 1
             nreg[cs['regime']] = nreg.get(cs['regime'], 0) + 1
             diff = kresults_agree(ri, rm) if m in EXACT else kresults_agree(ri, rm, rtol=1e-9, atol=1e-12)
@@ -127,7 +127,7 @@ def main():
                 c.sample({'model': m, 'params': [round(p, 4) for p in cs['ps']], 'regime': cs['regime'], 'steps': len(cs['rain']),
                           'sum_rain': sum(cs['rain']), 'sum_runoff': sum(ri[1][1] if m == 'Sacramento' else ri[1][0]),
                           'final_states': ri[2][:4]})
-        # mismatches: accept only if the measured sensitivity of the model to a 1e-15 relative
+        # mismatches: accept only if the measured sensitivity of the model to a 1e-14 relative
         # perturbation of its inputs explains the difference (ill-conditioned case, see rrlib)
         plines = []
         for i, diff in retry:
@@ -165,7 +165,7 @@ def main():
                      '1500 mm/day) for T in {0,1,2,7,40,400}; initial states = the model\'s own InitialiseStates (INIT command), '
                      'plus prefix runs (stores observed in mid-run) and hot starts from those model-produced states; every case run through '
                      'sim.Catalog and through the extracted Coq kernel (rtol 1e-9, atol 1e-12; RunoffCoefficient bit-exact) and judged by the '
-                     'C10 oracle with tolerance 1e-9*(1+sum rain); non-trivial = T>0 and some rain')
+                     'C10 oracle with tolerance 1e-9*(1+sum rain); non-trivial = T>0 and some rain; distinct = distinct (model, parameters, initial states, series)')
     c.finish(extra_cov={'cases_per_model': nmodel, 'cases_per_regime': nreg, 'parameter_vectors': len(vecs), 'known_finding_cases': nknown, 'ill_conditioned_cases_accepted': illcond[0], 'exhaustive': False},
              assumptions=['theorems are over exact reals (RArith); float round-off is covered only by the tolerance oracle on the implementation outputs',
                           'OCaml libm stands in for Go libm (exp, pow, tanh) in the correspondence run: rtol 1e-9',
